@@ -175,13 +175,18 @@ func c20StackExec(ops []contOp, st *Stats) *Violation {
 			model = append(model, next)
 			next++
 		case "pushall":
-			var vals []int
+			// the caller's slice stays the caller's: it has spare capacity and is overwritten after the call
+			vals := make([]int, 0, o.N+3)
 			for k := 0; k < o.N; k++ {
 				vals = append(vals, next)
 				next++
 			}
 			s.PushAll(vals...)
 			model = append(model, vals...)
+			for k := range vals {
+				vals[k] = -1000 - k
+			}
+			vals = append(vals, -7, -8, -9)
 		case "pop", "peek":
 			var got int
 			p := catchPanic(func() {
